@@ -109,6 +109,10 @@ def r1_full_scan_strict_improvement(cx):
             if dflt is not None and dflt < 0 and cand is not None and not cand.get("p") and clos_ok:
                 derived = cand["l"]
     cx.check("strict-comparison", bool(gt_edges) and best_local is not None, site_of(lk, scan.header), "the candidate's prefix length is compared strictly (>) with the best so far")
+    if best_local is not None:
+        rng = lk.local_ty(best_local).int_range()
+        cx.check("comparison-type-holds-all-lengths", rng is not None and rng[0] <= -1 and rng[1] >= 255, site_of(lk, scan.header),
+                 "the type in which prefix lengths are compared holds -1 (nothing found) and every u8 prefix length up to /128 without wrapping (range %s)" % (rng,))
     m_true = success_edges(lk, matches[0][0]).ok_edges if matches else set()
     # every store to the best-so-far locals inside the loop is dominated by both conditions
     upd = []
